@@ -174,7 +174,23 @@ type scanItem struct {
 func (h *dbHarness) execScanInternal(op *DBOp) {
 	var items []scanItem
 	n := h.model.Len()
-	err := h.db.ScanInternal(context.Background(), pebble.ScanInternalOptions{
+	// The scan runs on the DB or, if the op names one, on an open snapshot
+	// (then at the snapshot's position, whatever was written and whichever
+	// memtables were rotated since).
+	scan := h.db.ScanInternal
+	if s := h.snaps[op.Ref]; op.Ref != 0 && s != nil {
+		if len(s.excised) > 0 {
+			return // C03's documented exception: excised spans may vanish from classic snapshots
+		}
+		n = s.pos
+		if s.efos != nil {
+			scan = s.efos.ScanInternal
+		} else {
+			scan = s.s.ScanInternal
+		}
+		h.count("probe.scaninternal_on_snapshot", 1)
+	}
+	err := scan(context.Background(), pebble.ScanInternalOptions{
 		IterOptions: pebble.IterOptions{LowerBound: []byte(op.Key), UpperBound: []byte(op.End), KeyTypes: pebble.IterKeyTypePointsAndRanges},
 		VisitPointKey: func(key *pebble.InternalKey, value pebble.LazyValue, _ pebble.IteratorLevel) error {
 			v, _, err := value.Value(nil)
